@@ -3714,5 +3714,6 @@ async def _helper_rename_inbox(inbox: Mailbox, new_name: str) -> None:
         inbox.msg_keys = []
         inbox.num_msgs = 0
         inbox.uids = []
+        inbox._rebuild_index_dicts()
         inbox.set_sequences_in_folder(inbox.sequences)
         await inbox.commit_to_db()
